@@ -33,7 +33,20 @@ import (
 
 var run *vk.Run
 var clk *vclock.Clock
-var ops int64 // progress counter
+// progress counters, one per goroutine of the workload (-1 = finished): a goroutine that completes no operation
+// for 60 s while others keep running is as stuck as the whole process
+var (
+	progMu sync.Mutex
+	progs  []*int64
+)
+
+func newProg() *int64 {
+	p := new(int64)
+	progMu.Lock()
+	progs = append(progs, p)
+	progMu.Unlock()
+	return p
+}
 
 // generation bookkeeping per churned module (single updater per module => total order)
 type genCtl struct{ begun, done int64 }
@@ -174,8 +187,10 @@ var genChecks int64
 
 func traffic(id int, rng *rand.Rand, n int, wg *sync.WaitGroup) {
 	defer wg.Done()
+	prog := newProg()
+	defer atomic.StoreInt64(prog, -1)
 	for k := 0; k < n; k++ {
-		atomic.AddInt64(&ops, 1)
+		atomic.AddInt64(prog, 1)
 		switch rng.Intn(12) {
 		case 0, 1:
 			lo := atomic.LoadInt64(&gFlow.done)
@@ -269,8 +284,24 @@ func traffic(id int, rng *rand.Rand, n int, wg *sync.WaitGroup) {
 				e.Exit()
 			}
 		default:
-			e, b := sentinel.Entry(fmt.Sprintf("%s-%d", rPlain, rng.Intn(6)), sentinel.WithBatchCount(uint32(1+rng.Intn(3))), sentinel.WithArgs(rng.Intn(5), "x"))
+			res, a0 := fmt.Sprintf("%s-%d", rPlain, rng.Intn(6)), rng.Intn(5)
+			e, b := sentinel.Entry(res, sentinel.WithBatchCount(uint32(1+rng.Intn(3))), sentinel.WithArgs(a0, "x"))
 			if b == nil {
+				if rng.Intn(4) == 0 {
+					// the entry stays open while this and the other goroutines open further entries with arguments
+					// (pooled option / context objects are recycled meanwhile); its own arguments must not change
+					runtime.Gosched()
+					e2, b2 := sentinel.Entry(res, sentinel.WithArgs(a0+100, "y", id))
+					if rng.Intn(2) == 0 {
+						time.Sleep(20 * time.Microsecond)
+					}
+					if got := e.Context().Input.Args; len(got) != 2 || got[0] != a0 || got[1] != "x" {
+						report("C15/live-entry-args-changed", fmt.Sprintf("a live entry opened WithArgs(%d, \"x\") now carries %v", a0, got))
+					}
+					if b2 == nil {
+						e2.Exit()
+					}
+				}
 				e.Exit()
 			}
 		}
@@ -289,9 +320,11 @@ func updaters(stop *int32, rng *rand.Rand, wg *sync.WaitGroup) {
 		r := rand.New(rand.NewSource(rng.Int63()))
 		go func() {
 			defer wg.Done()
+			prog := newProg()
+			defer atomic.StoreInt64(prog, -1)
 			for g := int64(1); atomic.LoadInt32(stop) == 0; g++ {
 				f(g, r)
-				atomic.AddInt64(&ops, 1)
+				atomic.AddInt64(prog, 1)
 				if r.Intn(4) == 0 {
 					time.Sleep(time.Duration(r.Intn(200)) * time.Microsecond)
 				} else {
@@ -370,8 +403,10 @@ func readers(stop *int32, rng *rand.Rand, wg *sync.WaitGroup, n int) {
 		r := rand.New(rand.NewSource(rng.Int63()))
 		go func() {
 			defer wg.Done()
+			prog := newProg()
+			defer atomic.StoreInt64(prog, -1)
 			for atomic.LoadInt32(stop) == 0 {
-				atomic.AddInt64(&ops, 1)
+				atomic.AddInt64(prog, 1)
 				switch r.Intn(14) {
 				case 0:
 					_ = flow.GetRules()
@@ -462,20 +497,29 @@ func main() {
 		// progress watchdog (wall clock; only ever yields "inconclusive" or a deadlock report backed by a goroutine dump)
 		doneCh := make(chan struct{})
 		go func() {
-			last, stalls := int64(-1), 0
+			last := map[*int64]int64{}
+			stall := map[*int64]int{}
 			for {
 				select {
 				case <-doneCh:
 					return
 				case <-time.After(20 * time.Second):
 				}
-				cur := atomic.LoadInt64(&ops)
-				if cur == last {
-					stalls++
-				} else {
-					stalls = 0
+				stalls := 0
+				progMu.Lock()
+				for _, p := range progs {
+					cur := atomic.LoadInt64(p)
+					if l, seen := last[p]; seen && cur == l && cur != -1 {
+						stall[p]++
+					} else {
+						stall[p] = 0
+					}
+					last[p] = cur
+					if stall[p] > stalls {
+						stalls = stall[p]
+					}
 				}
-				last = cur
+				progMu.Unlock()
 				if stalls >= 3 {
 					buf := make([]byte, 1<<22)
 					buf = buf[:runtime.Stack(buf, true)]
@@ -487,11 +531,16 @@ func main() {
 						}
 					}
 					if blocked >= 2 {
-						report("C15/deadlock", fmt.Sprintf("no operation completed for 60 s and %d goroutines are parked on mutexes inside the library", blocked))
+						report("C15/deadlock", fmt.Sprintf("a goroutine of the workload completed no operation for 60 s and %d goroutines are parked on mutexes inside the library", blocked))
 					} else {
 						run.Inconclusive("no progress for 60 s but no mutex cycle visible in the goroutine dump")
 					}
 					os.Stderr.WriteString(dump)
+					vioMu.Lock()
+					for _, v := range vios {
+						run.Violation(v.sig, v.msg, nil)
+					}
+					vioMu.Unlock()
 					run.Finish()
 					os.Exit(0)
 				}
